@@ -132,6 +132,24 @@ Fixpoint starts_with (p s : str) : bool :=
 Definition s_rel : str := [32; 114; 101; 108; 61; 34]%N.           (* the rel attribute opener *)
 Definition s_target : str := [32; 116; 97; 114; 103; 101; 116; 61; 34]%N.
 
+(* Markup.unescape on text produced by escape: the five entities escape writes *)
+Fixpoint unescape_go (fuel : nat) (s : str) : str :=
+  match fuel with
+  | O => s
+  | S f =>
+      match s with
+      | [] => []
+      | c :: r =>
+          if starts_with s_amp s then 38%N :: unescape_go f (skipn 4 r)
+          else if starts_with s_lt s then 60%N :: unescape_go f (skipn 3 r)
+          else if starts_with s_gt s then 62%N :: unescape_go f (skipn 3 r)
+          else if starts_with s_q39 s then 39%N :: unescape_go f (skipn 4 r)
+          else if starts_with s_q34 s then 34%N :: unescape_go f (skipn 4 r)
+          else c :: unescape_go f r
+      end
+  end.
+Definition unescape5 (s : str) : str := unescape_go (length s) s.
+
 Section Urlize.
   (* the regexes and the punctuation trimming are parameters: any behaviour *)
   Variable http_match email_match : str -> bool.
@@ -140,9 +158,13 @@ Section Urlize.
   Variable split3 : str -> str * str * str.                    (* head, middle, tail *)
   Variable trim_limit : option nat.
 
+  (* trim_url (repo: since the round-9 fix) cuts the text the escaped word stands for and escapes the
+     kept part again, so an entity is never split:
+       text = Markup(x).unescape(); if len(text) > limit: return f"{escape(text[:limit])}..." *)
   Definition trim_url (x : str) : str :=
     match trim_limit with
-    | Some n => if Nat.ltb n (length x) then firstn n x ++ [46; 46; 46]%N else x
+    | Some n => let t := unescape5 x in
+                if Nat.ltb n (length t) then escape (firstn n t) ++ [46; 46; 46]%N else x
     | None => x
     end.
   Definition attrs_of (rel target : option tstr) : str :=
